@@ -183,7 +183,8 @@ def r2_write_targets_use_ident(ctx, rep):
         for a in ast.walk(dest):
             if isinstance(a, ast.Attribute) and a.attr in ("name", "ident", "filename"):
                 comps.append(a)
-        if fn is not None and isinstance(dest, ast.Attribute) and dest.attr == "outfile":
+        dest_alts = [dest] + (astq.expand_locals(dest, fn) if fn is not None else [])
+        if fn is not None and any(isinstance(d, ast.Attribute) and d.attr == "outfile" for d in dest_alts):
             # page classes: check every outfile implementation
             for cls in py.subclasses("BasePage"):
                 ci = py.classes[cls]
